@@ -19,8 +19,8 @@ CLAIMS = {
 
 CLAIMS.update({
  "C03": dict(
-   text="Codec layer only: the local zcash_encoding CompactSize reader/writer is decided for ALL byte strings of length 0..=9 and ALL u64 values (no panic, bytes consumed, every non-canonical prefix and over-limit value rejected, accepted input re-encodes to the consumed bytes); Vector<u8>/Optional<u8> for <=3 elements; amount encodings are decided under C09. Bounded model checking covers the complete input space of these kernels.",
-   note="Outside the claim (stated in DESIGN): transaction/bundle/header structure (read_v4/v5/v6, Sapling/Orchard/Ironwood bundles need curve-point decoding), TxVersion, TxIn/TxOut/Script, BlockHeader hashing. zcash_primitives links the published zcash_encoding 0.4 from the registry, not the local 0.5 harnessed here.",
+   text="Codec kernels with COMPLETE input spaces: the local zcash_encoding CompactSize reader/writer for ALL byte strings of length 0..=9 and ALL u64 values (no panic, bytes consumed, every non-canonical prefix and over-limit value rejected, accepted input re-encodes to the consumed bytes); Optional; TxVersion::read/write for ALL byte strings of length 0..=8 against an independently written accept set (non-overwintered >= 1, the four version/group-id pairs), canonical re-serialisation; OutPoint for all strings of length 0..=37. Amount encodings are decided under C09.",
+   note="Outside the claim (stated in DESIGN): transaction/bundle structure (read_v4/v5/v6; Sapling/Orchard/Ironwood bundles need curve-point decoding), TxIn/TxOut/Script (Vec-producing readers did not get through symex), BlockHeader hashing, txid/auth-commitment equality after a round trip. zcash_primitives links the published zcash_encoding 0.4 from the registry, not the local 0.5 harnessed here.",
    ref="§5 C03"),
  "C07": dict(
    text="ZIP 317 fee_required equals 5000*max(2, logical actions) computed in 128-bit arithmetic for all sizes/counts in the bounds; SingleOutputChangeStrategy::compute_balance on a Sapling 1-in/1-out transaction: for ALL values, dust policies/thresholds, target and anchor heights the solver shows conservation (inputs = outputs + change + fee), fee = ZIP 317 fee of the final shape unless dust is folded in, the dust rule, and that InsufficientFunds is honest.",
